@@ -326,6 +326,33 @@ macro_rules! c02_step_ctors {
     };
 }
 
+/// Conversion from a dynamic table of every size 0..=6 (concrete loop) with arbitrary well-formed contents:
+/// whatever TryFrom accepts must be a well-formed table of THIS size with the same blocks.
+macro_rules! c02_step_tryfrom {
+    ($name:ident, $fam:ident, $u:literal) => {
+        #[kani::proof]
+        #[kani::unwind($u)]
+        pub fn $name() {
+            use crate::verif_common::$fam as F;
+            let w: u64 = kani::any();
+            let mut np = 0usize;
+            while np <= 6 {
+                let d = crate::Lut::from_blocks(np, &[w & low_mask(np)]);
+                let r = <F::L as std::convert::TryFrom<crate::Lut>>::try_from(d);
+                if let Ok(x) = r {
+                    assert!(np == F::N);
+                    chk!(x, F::N);
+                    assert!(x.blocks()[0] == w & low_mask(np));
+                } else {
+                    assert!(np != F::N);
+                }
+                np += 1;
+            }
+            kani::cover!(true, "reached");
+        }
+    };
+}
+
 /// Items handed out by the public iterator are well-formed (first items; the arbitrary-state successor is
 /// the kernel lemma k08_next).
 macro_rules! c02_step_iter {
